@@ -5,6 +5,7 @@ from __future__ import annotations
 from ..gen import TextGen, text_classes, is_trivial_text, VALID_ESCAPES, BAD_UTF8_ESCAPES, MALFORMED
 from ..obs import guarded, is_exc
 from ..oracles.pct import ref_unquote, ref_unquote_replace, has_surrogate
+from ..ops import StrSub
 
 LEVEL = "exploration"
 RULE = (
@@ -272,6 +273,17 @@ def run_readback(ctx):
         rb("build_query", lambda: URL.build(scheme="http", host="h", query={t: [t, "x"]}), lambda u: list(u.query.items()), [(t, t), (t, "x")])
         rb("extend_query", lambda: base.extend_query({k2: t}), lambda u: list(u.query.items()), [("q", "1"), (k2, t)])
         rb("with_query_kwargs", lambda: base.with_query(a=t), lambda u: u.query["a"], t)
+        ts = StrSub(t)
+        rb("strsub_with_query_dict", lambda: base.with_query({ts: ts}), lambda u: list(u.query.items()), [(t, t)])
+        rb("strsub_with_query_kwargs", lambda: base.with_query(a=ts), lambda u: u.query["a"], t)
+        rb("strsub_with_query_dict_list", lambda: base.with_query({"k": [ts, "x"]}), lambda u: list(u.query.items()), [("k", t), ("k", "x")])
+        rb("strsub_update_query_dict", lambda: base.update_query({"q": ts}), lambda u: list(u.query.items()), [("q", t)])
+        rb("strsub_extend_query_seq", lambda: base.extend_query([(ts, ts)]), lambda u: list(u.query.items()), [("q", "1"), (t, t)])
+        rb("strsub_build_query", lambda: URL.build(scheme="http", host="h", query={"k": ts}), lambda u: u.query["k"], t)
+        rb("strsub_with_user", lambda: base.with_user(ts), lambda u: u.user, t)
+        rb("strsub_with_fragment", lambda: base.with_fragment(ts), lambda u: u.fragment, t)
+        rb("strsub_with_name", lambda: base.with_name(ts), lambda u: u.name, t, slashfree)
+        rb("strsub_div", lambda: base / ts, lambda u: u.name, t, slashfree)
         if i % 1201 == 0:
             ctx.sample({"entry": "with_user", "text": t})
 
